@@ -66,6 +66,15 @@ theorem C04_outcome {P : Params} {s : State} (hr : Reachable P s) (l : Label)
     (hf : (s.status l).final = true) : OutcomeSpec P s l (s.status l) (s.err l) :=
   hr.outcome l hf
 
+/-- C04 as an order: the labels in the order in which their outcome was computed (`State.order`: the failed load of
+    an unknown target, the rest of `Evaluate` of a known one) contain no label twice, and every known target that was
+    not handed the cycle error comes after all of its dependencies. (`Dawn/Props/LinkRunnerBuild.lean` turns this into
+    the hypothesis `RunnerOrder` of the incremental engine's theorems.) -/
+theorem C04_evaluation_order {P : Params} {s : State} (hr : Reachable P s) :
+    s.order.Nodup ∧ DepsFirst P s.cyc [] s.order ∧
+      ∀ l, l ∈ s.order ↔ ∃ p, s.pc l = some p ∧ p.afterRest = true :=
+  ⟨hr.invO.nodup, hr.invO.first, hr.invO.mem⟩
+
 /-- C04: the build's result is the requested target's result (and that target has finished). -/
 theorem C04_result {P : Params} {s : State} (hr : Reachable P s) (e : Err) (hd : s.main = .done e) :
     e = s.err P.root ∧ (s.status P.root).final = true :=
